@@ -99,25 +99,55 @@ int strcmp(const char *a, const char *b) {
 
 /* realloc model.  CBMC's own model copies the whole (symbolic-size) object and exhausts memory.
  * This one returns NULL (possible under --malloc-may-fail) or a new object of n bytes whose
- * contents are ARBITRARY except inside the windows a harness registered beforehand (ghost
- * positions whose preservation it wants to observe); the old object is freed.  This is weaker
- * than the real realloc, i.e. an over-approximation. */
-struct cqv_keep_s { const void *obj; size_t off; size_t len; } cqv_keep[10];
+ * contents are ARBITRARY except at the entries a harness registered beforehand (ghost positions
+ * whose preservation it wants to observe); the old object is freed.  This is weaker than the real
+ * realloc, i.e. an over-approximation.  (One malloc call site on purpose: keeps CBMC's points-to
+ * sets of the four arrays apart.) */
+#include "thrift/parquet_types.h"
+struct cqv_re_s { const void *obj; int kind; size_t i0, i1; } cqv_re[4];
 void *realloc(void *p, size_t n) {
+#ifdef CQV_NOGROW
+  /* case split "num_elements < capacity": growth must be unreachable (proved, not assumed) */
+  __CPROVER_assert(0, "realloc is unreachable when num_elements < capacity");
+  return NULL;
+#endif
   if (!p) return malloc(n);
   __CPROVER_precondition(__CPROVER_DYNAMIC_OBJECT(p) && __CPROVER_POINTER_OFFSET(p) == 0, "realloc: pointer from malloc");
   size_t old = __CPROVER_OBJECT_SIZE(p);
-  unsigned char *q = malloc(n);
+  void *q = malloc(n);
   if (!q) return NULL;
-  for (int w = 0; w < 10; w++) {
-    if (cqv_keep[w].obj == p && cqv_keep[w].off + cqv_keep[w].len <= old && cqv_keep[w].off + cqv_keep[w].len <= n) {
-      const unsigned char *src = (const unsigned char *)p + cqv_keep[w].off;
-      unsigned char *dst = q + cqv_keep[w].off;
-      if (cqv_keep[w].len == 8) *(uint64_t *)dst = *(const uint64_t *)src;
-      else if (cqv_keep[w].len == 4) *(uint32_t *)dst = *(const uint32_t *)src;
-      else if (cqv_keep[w].len == 2) *(uint16_t *)dst = *(const uint16_t *)src;
+  int w = p == cqv_re[0].obj ? 0 : p == cqv_re[1].obj ? 1 : p == cqv_re[2].obj ? 2 : p == cqv_re[3].obj ? 3 : -1;
+  if (w >= 0) {
+    size_t i0 = cqv_re[w].i0, i1 = cqv_re[w].i1;
+    int kind = cqv_re[w].kind;
+    if (kind == 1) {
+      parquet_schema_element_t *d = q;
+      const parquet_schema_element_t *o = p;
+      if ((i0 + 1) * sizeof(*d) <= n && (i0 + 1) * sizeof(*d) <= old) { d[i0].name = o[i0].name; d[i0].type = o[i0].type; d[i0].repetition_type = o[i0].repetition_type; d[i0].num_children = o[i0].num_children; d[i0].type_length = o[i0].type_length; }
+      if ((i1 + 1) * sizeof(*d) <= n && (i1 + 1) * sizeof(*d) <= old) { d[i1].name = o[i1].name; d[i1].type = o[i1].type; d[i1].repetition_type = o[i1].repetition_type; d[i1].num_children = o[i1].num_children; d[i1].type_length = o[i1].type_length; }
+    } else if (kind == 2) {
+      if ((i0 + 1) * 4 <= n && (i0 + 1) * 4 <= old) ((int32_t *)q)[i0] = ((const int32_t *)p)[i0];
+    } else if (kind == 3) {
+      if ((i0 + 1) * 2 <= n && (i0 + 1) * 2 <= old) ((int16_t *)q)[i0] = ((const int16_t *)p)[i0];
     }
   }
   free(p);
   return q;
 }
+
+#ifdef CQV_SCHEMA_MEMSET
+/* memset for jobs that need the zero-initialisation of ONE schema element to be exact (used
+ * instead of stubs/mem_stubs.c): zeroing exactly sizeof(parquet_schema_element_t) bytes is done as
+ * a typed struct assignment (all members and padding-free view zero); anything else: range must be
+ * writable, contents become arbitrary. */
+void *memset(void *dst, int c, size_t n) {
+  __CPROVER_precondition(__CPROVER_w_ok(dst, n), "memset dst writable");
+  if (n == sizeof(parquet_schema_element_t) && c == 0) {
+    static const parquet_schema_element_t zero;
+    *(parquet_schema_element_t *)dst = zero;
+  } else if (n != 0) {
+    __CPROVER_havoc_slice(dst, n);
+  }
+  return dst;
+}
+#endif
